@@ -352,7 +352,8 @@ Definition run (v : wv) : wv :=
                                    | _ => None end in
           let real' := flat_map (fun w => match dec_call w with Some c => [c] | None => [] end) real in
           if (length real' =? length real)%nat
-          then wok [wbool (explain (S (length real')) (variant_segments lines) (flow_trace lines) real')]
+          then wok [wbool (explain (S (length real')) (variant_segments lines) (flow_trace lines) real');
+                    wbool (explain_p true (S (length real')) (variant_segments lines) (flow_trace lines) real')]
           else wbad
       | None => wbad end
   | WL [WI 6; l] =>
